@@ -194,6 +194,12 @@ func runProperty(prop, tier string) int {
 			continue
 		}
 		cfg.Unwind = atoiDef(hc["unwind"], cfg.Unwind)
+		if r := hc["real"]; r != "" { // real=<fn>;<fn>: run the real bodies instead of the intrinsics
+			cfg.RealFns = map[string]bool{}
+			for _, fn := range strings.Split(r, ";") {
+				cfg.RealFns[fn] = true
+			}
+		}
 		if c := hc["cut"]; c != "" { // cut=<function suffix>:<iterations>
 			if fn, n, ok := strings.Cut(c, ":"); ok {
 				cfg.CutFn, cfg.CutN = fn, atoiDef(n, 8)
